@@ -1,6 +1,10 @@
 """Per-property configuration of the /verif checks (read by ./check)."""
 
 COMPONENTS = {
+    "intern": {
+        "real": ["internal/intern.Table (Intern, InternBytes, Query, Value)", "internal/ext/syncx.Log (Append, Load)", "sync.Map, sync/atomic, Go runtime"],
+        "stub": ["callers (workload goroutines)", "goroutine scheduler (seeded, serialising, invisible to the race detector; fair round-robin among goroutines that only spin)"],
+    },
     "symbols": {
         "real": ["linker.Symbols (Import, Lookup, LookupExtension, AddExtension, AddExtensionDeclaration)", "reporter.Handler", "protodesc / linker results as imported descriptors", "sync.RWMutex, Go runtime"],
         "stub": ["callers (workload goroutines / operation histories)", "goroutine scheduler (seeded, serialising; invisible to the race detector in engine R)", "flat-map reference model"],
@@ -66,13 +70,18 @@ PROPS = {
     ),
     "C08": dict(
         level="exploration", components="compile",
-        parts=[dict(test="TestC08", engine="B", quick_checks=600, thorough_checks=30000)],
+        parts=[dict(test="TestC08", engine="B", quick_checks=600, thorough_checks=30000),
+               dict(test="TestC08R", engine="R", quick_checks=2000, thorough_checks=60000)],
         thorough_timeout=7200,
         rule="a case = generated multi-file workload carrying 0-12 independent reportable errors (unresolvable types, duplicate field "
              "numbers, bad defaults, symbol/extension collisions, cycles, syntax errors) and unused-import warnings x reporter policy "
-             "(abort at its k-th error, k=1..8, or never) x MaxParallelism in {1,2,4} x scheduler tape; distinct = distinct (workload, "
-             "policy, trace hash); non-trivial = at least one error reached the reporter",
-        assumptions=_ASSUME_B + ["the reporter stub cannot park (the handler holds its mutex around the callback), so reporter calls are atomic steps in engine B"],
+             "(abort at its k-th error, k=1..8, or never) x MaxParallelism in {1,2,4} x scheduler tape; part R: 2-4 goroutines x 1-6 operations "
+             "each from {HandleErrorf, HandleWarningf, HandleError(non-positional), Error, ReporterError} on one root Handler and per-"
+             "goroutine SubHandlers, reporter aborting at its k-th error or never and touching plain unsynchronised memory, under the race "
+             "detector with happens-before-transparent scheduling; distinct = distinct (workload or operations, policy, trace hash); "
+             "non-trivial = at least one error reached the reporter",
+        assumptions=_ASSUME_B + ["the reporter stub cannot park (the handler holds its mutex around the callback), so reporter calls are atomic steps in engine B",
+                                 "'never called concurrently' is decided at Handler level (part R: an unsynchronised reporter must be race-free); a change in compiler.go that bypassed the shared root handler would only be seen through part B's latch/outcome oracles"],
     ),
     "C09": dict(
         test="TestC09", engine="B", level="exploration", components="compile",
@@ -151,6 +160,19 @@ PROPS = {
         assumptions=_ASSUME_B + ["engine R: race reports are ThreadSanitizer's; a race between two accesses is only reported if no lock/atomic of the code under test orders them in the explored schedule",
                                  "a collision between two files counts as found when at least one import call of either file fails (which one is schedule-dependent)"],
     ),
+    "C38": dict(
+        test="TestC38", engine="R", level="exploration", components="intern",
+        quick_checks=1500, thorough_checks=60000, thorough_timeout=7200,
+        rule="a case = 2-4 worker goroutines x 2-8 operations each from {Intern, InternBytes followed by overwriting the caller's buffer, "
+             "Query, Value(id obtained earlier)} over a per-case palette of 2-6 strings (inline-encodable and stored ones, incl. trailing "
+             "'.', 6 characters, non-char6 characters), with yield points before every atomic step of internSlow, Query, Log.Append and "
+             "Log.Load and inside all four spin loops, run under the race detector by the happens-before-transparent scheduler; the "
+             "recorded invoke/return history is checked with porcupine against map[string]ID; distinct = distinct (operations, trace "
+             "hash); non-trivial = at least two Intern operations on stored (non-inline) strings",
+        assumptions=["engine R serialises goroutines at hook granularity; spin loops are scheduled fairly (round-robin once only spinners remain)",
+                     "the injectivity of the inline encoding over its whole 64^5 domain is exhaustive enumeration of a pure function and is NOT decided here; inline strings are only sampled (round trip, sign of the id)",
+                     "porcupine results 'Unknown' (timeout) are counted as inconclusive, never reported", "seeded sampling, not proof"],
+    ),
 }
 
 _PURE = "pure function of its input (no schedule, clock, fault or interleaving can change the answer): not a deterministic-simulation target; see DESIGN.md section 4"
@@ -162,9 +184,18 @@ NOT_APPLICABLE = {
     "C39": _PURE, "C40": _PURE + " (histories over a single-threaded structure are just inputs; nothing to inject)", "C41": _PURE,
 }
 _P = "simulation applies (DESIGN.md section 3) but the check is still under construction in this round; not claimed until it runs"
-PENDING = {k: _P for k in ["C38"]}
+PENDING = {}
 
 MANIFEST_TEXT = {
+    "C38": dict(
+        technique="deterministic simulation under the race detector (engine R) with a porcupine linearizability check of the recorded history against map[string]ID",
+        design_ref="DESIGN.md 3.12",
+        level_text="Seeded interleavings of concurrent Intern/Query/Value callers at every atomic step of the interning slow path "
+                   "and of the append-only log (including its growth path and all spin loops); oracles: race detector, "
+                   "linearizability of the invoke/return history against a sequential map model, agreement of all goroutines on ids, "
+                   "distinct strings get distinct ids, Value/Query round trips. The exhaustive inline-encoding bijection is not claimed.",
+        level_note="Trusted: engine R scheduler, ThreadSanitizer, porcupine, the documented inlining rule used by the model.",
+    ),
     "C16": dict(
         technique="deterministic simulation under the race detector with happens-before-transparent scheduling (engine R) plus partitioned-compilation simulation (engine B)",
         design_ref="DESIGN.md 3.6",
@@ -219,7 +250,7 @@ MANIFEST_TEXT = {
         level_note="Trusted: harness scheduler, synctest quiescence, the recomputation model. The eviction lock is modelled (see assumptions).",
     ),
     "C08": dict(
-        technique="deterministic simulation: reporter policies (abort at k / never) as injected faults x seeded schedules (engine B)",
+        technique="deterministic simulation: reporter policies (abort at k / never) as injected faults x seeded schedules (engine B); Handler under the race detector with an unsynchronised reporter and a latch/sub-handler model (engine R)",
         design_ref="DESIGN.md 3.4",
         level_text="Seeded exploration of interleavings of tasks reporting errors through sub-handlers, crossed with reporter "
                    "abort policies; oracle: no error reaches the reporter after it aborted, Compile returns that very error, "
